@@ -39,6 +39,19 @@ func C02(c *Ctx) {
 		Compare:    CmpTrace | CmpVal | CmpEnd | CmpOK,
 		NonTrivial: func(m *ref.Result) bool { return m.Backtracks >= 1 && len(m.Trace) >= 3 },
 		StalePS:    "F02-stale-pred-pos",
+		ExtraInputs: func(g *gast.Grammar, r *rand.Rand) [][]byte {
+			// other line-break conventions in the input: a carriage return is an ordinary rune (only the
+			// newline ends a line), alone, before a newline, and next to the line/paragraph separators
+			var out [][]byte
+			alpha := g.Alphabet()
+			for i := 0; i < 10; i++ {
+				s := g.Sentence(r, g.Rules[0].Name, alpha, 6)
+				cut := r.Intn(len(s) + 1)
+				ins := []string{"\r", "\r\n", "\r\r", "\u2028", "\v\f", "\u0085"}[i%6]
+				out = append(out, append(append(append([]byte{}, s[:cut]...), ins...), s[cut:]...))
+			}
+			return out
+		},
 	}
 	c.runKnownF02()
 	c.ModelCheck(cfg)
@@ -513,6 +526,13 @@ func C11(c *Ctx) {
 		Entrypoints: true,
 	}
 	c.ModelCheck(cfg)
+	// blocks whose error text depends on the globalStore: every evaluation is another error. (Not under
+	// Memoize: caching a block that is no function of its inputs is what the option is documented to do.)
+	icfg := *cfg
+	icfg.Grammars = c11ImpureStrata()
+	icfg.NGrammars = 0
+	icfg.OptSets = []OptSet{{Name: "default"}, {Name: "norecover", NoRecover: true}, {Name: "stats", Stats: true}, {Name: "debug", Debug: true}}
+	c.ModelCheck(&icfg)
 	// the same contract through the left-recursion runtime (errors of discarded growth attempts
 	// are dropped, everything else accumulates as usual); trace not compared there
 	lr := []*gast.Grammar{c08Strata()[0]} // an erroring operand evaluated in a discarded growth attempt and again afterwards
@@ -831,6 +851,19 @@ func c14Strata() []*gast.Grammar {
 			r("R", gast.C(act(gast.L("~"), 3), gast.Thr("L2")))),
 		// throw inside repetition and predicate
 		mk(r("S", gast.Rec(gast.S(gast.Star(gast.C(gast.L("a"), gast.S(gast.AndE(gast.L("b")), gast.Thr("L2")))), gast.NotE(gast.Thr("L1")), gast.Star(gast.Dot())), act(gast.L("b"), 1), "L1", "L2"))),
+	}
+}
+
+func c11ImpureStrata() []*gast.Grammar {
+	mk := func(rules ...*gast.Rule) *gast.Grammar { return &gast.Grammar{Rules: rules} }
+	r := func(n string, e *gast.Expr) *gast.Rule { return &gast.Rule{Name: n, Expr: e} }
+	return []*gast.Grammar{
+		// a block that runs several times at one offset (alternatives with a common prefix) and reports
+		// another text each time (it depends on the globalStore): each is a different error and stays
+		mk(r("S", gast.S(gast.C(gast.S(gast.Ref("A"), gast.L("!")), gast.S(gast.Ref("A"), gast.L("?")), gast.Ref("A")), gast.Star(gast.Dot()))),
+			r("A", gast.A(gast.Plus(gast.Cl(gast.Chars("ab"))), 1, mon.Spec{E: 8, G: true}))),
+		mk(r("S", gast.Star(gast.C(gast.S(gast.Ref("P"), gast.L("x")), gast.S(gast.Ref("P"), gast.L("y")), gast.Dot()))),
+			r("P", gast.S(gast.AndC(1, mon.Spec{E: 8, G: true}), gast.A(gast.L("a"), 2, mon.Spec{E: 8, G: true}), gast.St(3, mon.Spec{S: 1, E: 8, G: true})))),
 	}
 }
 
